@@ -11,7 +11,11 @@ import (
 	warptypes "github.com/bcp-innovations/hyperlane-cosmos/x/warp/types"
 	sdk "github.com/cosmos/cosmos-sdk/types"
 
+	"cosmossdk.io/math"
+
 	adaptertypes "github.com/noble-assets/orbiter/v2/types/component/adapter"
+	dispatchertypes "github.com/noble-assets/orbiter/v2/types/component/dispatcher"
+	"github.com/noble-assets/orbiter/v2/types/core"
 	executortypes "github.com/noble-assets/orbiter/v2/types/component/executor"
 	forwardertypes "github.com/noble-assets/orbiter/v2/types/component/forwarder"
 )
@@ -107,6 +111,10 @@ func (w *World) ApplyEnv(ctx sdk.Context, env string) error {
 		msg = &cctptypes.MsgPauseBurningAndMinting{From: w.CctpOwner.String()}
 	case "hyp-unroll-1":
 		msg = &warptypes.MsgUnrollRemoteRouter{Owner: w.Alice.String(), TokenId: w.TokenT0, ReceiverDomain: 1}
+	case "seed-stats-top":
+		// A state reachable through genesis import (statistics continue from imported totals, C17):
+		// route (IBC channel-1 -> INTERNAL noble, uusdc) starts 10 below the top of the 256-bit range.
+		return w.seedStatsTop(ctx)
 	default:
 		return fmt.Errorf("unknown env toggle %q", env)
 	}
@@ -115,6 +123,21 @@ func (w *World) ApplyEnv(ctx sdk.Context, env string) error {
 		return fmt.Errorf("env %s failed: %s %s", env, r.Err, r.Panic)
 	}
 	return nil
+}
+
+func (w *World) seedStatsTop(ctx sdk.Context) error {
+	top, _ := math.NewIntFromString(maxUint256Str)
+	top = top.SubRaw(10)
+	src := core.CrossChainID{ProtocolId: core.PROTOCOL_IBC, CounterpartyId: "channel-1"}
+	dst := core.CrossChainID{ProtocolId: core.PROTOCOL_INTERNAL, CounterpartyId: "noble"}
+	d := w.App.OrbiterKeeper.Dispatcher()
+	if d.HasDispatchedAmount(ctx, &src, &dst, denomUSDC) {
+		return fmt.Errorf("route already has statistics")
+	}
+	if err := d.SetDispatchedAmount(ctx, &src, &dst, denomUSDC, dispatchertypes.AmountDispatched{Incoming: top, Outgoing: top}); err != nil {
+		return err
+	}
+	return d.SetDispatchedCounts(ctx, &src, &dst, 1)
 }
 
 func OpEnv(env string) Op { return Op{Label: "Env(" + env + ")", Env: env} }
